@@ -44,6 +44,7 @@ func boundsControl() string {
 // guarded effect is silently dropped. Range loops over a parallel collection are
 // exempt. Positive controls from an embedded fixture run on every check.
 func boundsRule(c *core.Ctx, r *core.Report, rule string, scope func(fn *ssa.Function, rel string) bool, consequence string) {
+	r.Explain(rule + ": no value used as an index is range-checked against the length of a collection it does not index (range loops over a parallel collection exempt); embedded positive controls.")
 	if msg := boundsControl(); msg != "" {
 		r.Fail("infra.control", rule+"|bounds-fixture", "", "the foreign-bound engine no longer passes its positive controls: "+msg)
 		return
